@@ -9,7 +9,7 @@ ID = 'C03'
 LEVEL = 'exploration'
 RULE = ('Hypothesis draws a server configuration and a history (<=30/60 actions) of opens, polls '
         '(pending, late, overlapping), application send() calls with uniquely tagged text/JSON/'
-        'binary payloads (singly or in bursts of 15..40), polling clients that are plain, JSONP (j=<n>, d= posts) or ask for compressed answers, every prefix of the probe handshake (correct and wrong frames, closes, '
+        'binary payloads (singly or in bursts of 15..40), client messages that the message handler answers itself with a send() before returning, polling clients that are plain, JSONP (j=<n>, d= posts) or ask for compressed answers, every prefix of the probe handshake (correct and wrong frames, closes, '
         'faults), pongs, clock advances relative to the next deadline, with or without settling '
         'between actions (thread world: scheduler picks drawn too); executed against the real '
         'Server (baton-scheduled threads) or AsyncServer (virtual-time loop). Oracle: per session '
@@ -179,9 +179,12 @@ PROFILE = {
     # polling clients come in flavours: plain, JSONP (j=<n>, d=<payload> posts), compressed
     # answers (Accept-Encoding with a low threshold), both
     'client_flavours': ['plain', 'plain', 'plain', 'jsonp', 'gzip', 'jsonp+gzip'],
-    'weights': {'open': 3, 'poll': 5, 'post': 1, 'probe_step': 6, 'ws_send': 1, 'ws_close': 1,
+    'weights': {'open': 3, 'poll': 5, 'post': 2, 'probe_step': 6, 'ws_send': 2, 'ws_close': 1,
                 'ws_fail': 1, 'ws_soft_fail': 1, 'pong': 1, 'app_send': 8, 'app_burst': 1, 'advance': 3},
     'max_sessions': 3,
+    # half of the client's messages are answered by the message handler itself (send() from
+    # inside the handler, before it returns): replies join the ordinary send stream
+    'reactions': [('echo', 50)],
     'packet_kinds': [('msg', 4), ('pong', 2), ('upgrade', 1)],
     'post_modes': [('pkts', 1)],
     'declared_delta': [0],
@@ -216,6 +219,11 @@ def summarize(ex):
             cls.append('send-racing-pending-poll')
         if any(p._upg_state == 'open' for p in s.polls):
             cls.append('poll-during-upgrade')
+        if any(x.get('in_handler') for x in s.app_sent):
+            cls.append('reply-sent-by-message-handler')
+            if any(x.get('in_handler') and x['tag'] in [g['tag'] for g in received_msgs(s)]
+                   for x in s.app_sent):
+                cls.append('handler-reply-delivered')
         if any(att.get('promoted') for att in s.upg_attempts):
             cls.append('upgrade-completed')
         if any(not att.get('promoted') for att in s.upg_attempts):
